@@ -63,6 +63,8 @@ partial def loop (h : IO.FS.Stream) (s : St) : IO Unit := do
     | (st, some str) => IO.println s!"> {showStatus st} {str.length} {fnv str}"
     | (st, none) => IO.println s!"> {showStatus st} - -"
     loop h s
+  | ["kphys_off", _] => loop h s
+  | ["cache", _] => loop h s
   | _ => IO.println "> bad-op"; loop h s
 
 def run (h : IO.FS.Stream) : IO Unit := loop h {}
